@@ -12,6 +12,8 @@ import subprocess
 ROOT = os.path.dirname(os.path.dirname(os.path.abspath(__file__)))
 
 MAP = [
+    ("PSBTIn.validate refuses a RedeemScript or WitnessScript in a slot the spent output does not use", "C11", "the wallet's script attached as RedeemScript to a foreign P2WSH UTXO, or as WitnessScript to a foreign P2SH / P2TR / bare output: never compared with the spent output, the input was summarised as a wallet input"),
+    ("the multisig summary requires a key's path to lie below the path stated for its xpub", "C11", "global xpubs at m/48'/1'/0'/2' while every derivation record said m/99'/7'/7'/7'/b/i: summarised, change labelled, root paths reported where the keys are not"),
     ("PrivateKey.wif uses the key's own compression flag", "C09", "PrivateKey.parse(uncompressed WIF).wif() returned the compressed WIF (the default argument shadowed the key's flag)"),
     ("p2sh finalize counts the signatures without the leading OP_0", "C10", "p2sh input with m-1 cosigner signatures plus a valid signature by a key outside the redeem script finalised (the OP_0 dummy was counted as a signature); the result did not parse"),
     ("PSBT validation treats a witness input by its script type whichever UTXO form describes it", "C10", "a segwit input carrying both UTXO forms (as Bitcoin Core writes them) was parsed, re-serialised with the previous transaction only, and that serialisation was refused on the next parse; signatures of such inputs were checked against the legacy digest"),
